@@ -17,7 +17,8 @@ _fresh = itertools.count()
 
 
 def fresh(prefix, sort):
-    return z3.Const(f"{prefix}!{next(_fresh)}", sort)
+    import pyvc.core as me
+    return z3.Const(f"{prefix}!{next(me._fresh)}", sort)
 
 
 # ---------------------------------------------------------------- values
